@@ -1320,17 +1320,18 @@ impl Formatter {
     let mut src = "".to_string();
     for rule in node.rules.iter() {
       let id = self.grammar_identifier(&rule.name);
-      let rule_str = format!("{} <span class=\"mech-grammar-define-op\">:=</span>{}", id, self.grammar_expression(&rule.expr));
+      let expr = self.grammar_expression(&rule.expr);
       if self.html {
+        let rule_str = format!("{} <span class=\"mech-grammar-define-op\">:=</span>{}", id, expr);
         src = format!("{}<div class=\"mech-grammar-rule\">{} ;</div>",src,rule_str);
       } else {
-        src = format!("{}{};\n",src,rule_str); 
+        src = format!("{}{} := {} ;\n",src,id,expr);
       }
     }
     if self.html {
       format!("<div class=\"mech-grammar\">{}</div>",src)
     } else {
-      src
+      format!("```ebnf\n{}```\n", src)
     }
   }
 
